@@ -39,3 +39,25 @@ func ruleC01(c *Check, p *Prog) {
 	c.Explanation = "equivalence with reference formulations (work in progress)"
 	runNumSpecs(c, p, c01Specs)
 }
+
+var c02Specs = []numSpec{
+	{"R-EQUIV", "RunsTest", eqSpec{Pkg: pkgRoot, Name: "RunsTest", RefName: "RunsTest", Dom: domLen(100, 5000)}, "runs over the n-1 adjacent pairs, ones over all n bits, V=(Vobs-2n pi(1-pi))/(2 sqrt(n) pi(1-pi))"},
+	{"R-EQUIV", "RunsDistributionTest", eqSpec{Pkg: pkgRoot, Name: "RunsDistributionTest", RefName: "RunsDistributionTest", Dom: domLen(100, 5000)}, "cut-off k loop, run-length machine with pooling into class k and last-run flush, e_i, chi-square, igamc(k-1,V/2)"},
+	{"R-EQUIV", "LongestRunOfOnesInABlockProto", eqSpec{Pkg: pkgRoot, Name: "LongestRunOfOnesInABlockProto", RefName: "LongestRunOfOnesInABlockProto", Dom: domLen(128, 900000)}, "regimes 6272/750000, per-block longest run of the chosen symbol, clamp into K+1 classes, igamc(K/2,V/2)"},
+}
+
+func ruleC02(c *Check, p *Prog) {
+	c.Explanation = "equivalence with reference formulations (work in progress)"
+	runNumSpecs(c, p, c02Specs)
+}
+
+var c03Specs = []numSpec{
+	{"R-EQUIV", "BinaryDerivativeProto", eqSpec{Pkg: pkgRoot, Name: "BinaryDerivativeProto", RefName: "BinaryDerivativeProto", Dom: withParam(domLen(100, 5000), 1, 1, 20)}, "k xor passes over a private copy (pass i covers j < n-i-1), S over the first n-k bits, V=S/sqrt(n-k)"},
+	{"R-EQUIV", "AutocorrelationProto", eqSpec{Pkg: pkgRoot, Name: "AutocorrelationProto", RefName: "AutocorrelationProto", Dom: withParam(domLen(100, 5000), 1, 1, 40)}, "A(d) over i < n-d, V=2(A-(n-d)/2)/sqrt(n-d)"},
+	{"R-EQUIV", "CumulativeTest", eqSpec{Pkg: pkgRoot, Name: "CumulativeTest", RefName: "CumulativeTest", Dom: domLen(100, 5000)}, "forward/backward +-1 walk, Z=max|S|, two Phi-series with integer bounds derived from n/Z"},
+}
+
+func ruleC03(c *Check, p *Prog) {
+	c.Explanation = "equivalence with reference formulations (work in progress)"
+	runNumSpecs(c, p, c03Specs)
+}
